@@ -90,7 +90,11 @@ def main():
                 viol = [l for l in out.splitlines() if l.startswith("VIOLATION")]
                 rules = sorted(set(l.strip().split(" ")[0] for l in out.splitlines() if l.strip().startswith("rule=")))
                 verdict = "CAUGHT" if rc == 1 and viol else ("MISSED" if rc == 0 else f"ERROR(rc={rc})")
-                print(f"{line}{c}: {verdict} {' '.join(rules[:4])} ({time.time()-t0:.0f}s)")
+                print(f"{line}{c}: {verdict} {' '.join(rules[:4])} ({time.time()-t0:.0f}s)", flush=True)
+                with open(os.path.join(ROOT, "mutants", "results.jsonl"), "a") as rf:
+                    rf.write(json.dumps({"mutant": name, "property": m["property"], "desc": m["desc"], "check": c, "verdict": verdict,
+                                         "rules": [r[5:] for r in rules[:6]], "repo_tests": ("PASS" if "repo-tests=PASS" in line else ("FAIL" if "repo-tests=FAIL" in line else "not run")),
+                                         "tier": env["VERIF_TIER"], "seconds": round(time.time() - t0)}) + "\n")
                 if verdict.startswith("ERROR"):
                     print(out[-1500:])
         finally:
